@@ -1,11 +1,11 @@
 CONSTANTS
   NameSeq <- N3
   Slots = {1, 2}
-  MaxNodes = 8
+  MaxNodes = 12
   MaxDepth = 3
 CONSTANT JsonReleasesTemps <- No
 INIT Init
-NEXT Next
+NEXT NextB
 CONSTRAINT Bound
 INVARIANT InvSrc
 INVARIANT InvDst
